@@ -488,3 +488,137 @@ pub fn run_fresh(pristine: &Emf, mult: Mult, entry: &EntryD, out: &mut Vec<u8>) 
     out.clear();
     Runner::from_emf(pristine.clone(), mult).format(entry, out)
 }
+
+// ------------------------------------------------------------------------------------------
+// replay: rebuild a case from the JSON written into a replay file (`to_json` above)
+
+fn parse_f64(s: &str) -> f64 {
+    match s {
+        "NaN" => f64::NAN,
+        "inf" => f64::INFINITY,
+        "-inf" => f64::NEG_INFINITY,
+        other => other.parse().expect("float in replay file"),
+    }
+}
+
+impl EntryD {
+    pub fn from_json(j: &J) -> Option<EntryD> {
+        let mut ops = Vec::new();
+        for op in j.as_array()? {
+            if let Some(ts) = op.get("timestamp_ns") {
+                ops.push(OpD::Timestamp(ts.as_str()?.parse().ok()?));
+            } else if let Some(c) = op.get("config") {
+                if let Some(sets) = c.get("EntryDimensions") {
+                    let sets: Vec<Vec<String>> = sets.as_array()?.iter().map(|s| s.as_array().unwrap().iter().map(|d| d.as_str().unwrap().to_string()).collect()).collect();
+                    ops.push(OpD::Config(ConfD::EntryDims(sets)));
+                } else if c.as_str()? == "AllowSplitEntries" {
+                    ops.push(OpD::Config(ConfD::Split));
+                } else {
+                    ops.push(OpD::Config(ConfD::Unroutable));
+                }
+            } else {
+                let name = op.get("value")?.as_str()?.to_string();
+                let val = if let Some(s) = op.get("string") {
+                    ValD::Str(s.as_str()?.to_string())
+                } else if let Some(e) = op.get("error") {
+                    ValD::Error(e.as_str()?.to_string())
+                } else if op.get("nothing").is_some() {
+                    ValD::Nothing
+                } else {
+                    let obs = op.get("obs")?.as_array()?.iter().map(|o| {
+                        if let Some(u) = o.get("U") { Obs::U(u.as_str().unwrap().parse().unwrap()) }
+                        else if let Some(f) = o.get("F") { Obs::F(parse_f64(f.as_str().unwrap())) }
+                        else { let r = o.get("R").unwrap(); Obs::R(parse_f64(r[0].as_str().unwrap()), r[1].as_str().unwrap().parse().unwrap()) }
+                    }).collect();
+                    let unit = match op.get("unit")?.as_str()? { "Milli" => UnitD::Milli, "Count" => UnitD::Count, "KiloByte" => UnitD::KiloByte, "Custom" => UnitD::Custom, _ => UnitD::None };
+                    let flag = match op.get("flag")?.as_str()? { "HighRes" => FlagD::HighRes, "NoMetric" => FlagD::NoMetric, _ => FlagD::None };
+                    let dims = op.get("dims")?.as_array()?.iter().map(|d| (d[0].as_str().unwrap().to_string(), d[1].as_str().unwrap().to_string())).collect();
+                    ValD::Metric { obs, unit, dims, flag }
+                };
+                ops.push(OpD::Value(name, val));
+            }
+        }
+        Some(EntryD { ops })
+    }
+}
+
+impl CfgD {
+    pub fn from_json(j: &J) -> Option<CfgD> {
+        let strs = |v: &J| -> Vec<String> { v.as_array().map(|a| a.iter().map(|x| x.as_str().unwrap_or("").to_string()).collect()).unwrap_or_default() };
+        Some(CfgD {
+            ctor: match j.get("ctor")?.as_str()? {
+                "AllValidations" => Ctor::AllValidations,
+                "NoValidations" => Ctor::NoValidations,
+                "Builder" => Ctor::Builder,
+                "BuilderSkipFalse" => Ctor::BuilderSkipFalse,
+                _ => Ctor::BuilderSkipTrue,
+            },
+            namespaces: strs(j.get("namespaces")?),
+            default_dims: j.get("default_dims")?.as_array()?.iter().map(strs).collect(),
+            extra_directive: j.get("extra_directive")?.as_bool()?,
+            log_group: j.get("log_group")?.as_str().map(|s| s.to_string()),
+            allow_ignored: j.get("allow_ignored_dimensions")?.as_bool()?,
+            mult: match j.get("sampling")?.as_str()? { "One" => Mult::One, "Two" => Mult::Two, "Max" => Mult::Max, _ => Mult::None },
+        })
+    }
+}
+
+/// Re-runs the single (config, entry) case of a replay file on a fresh real formatter and
+/// prints what the oracles say. Returns true if C02's and C03's oracles are satisfied.
+pub fn replay_file(path: &std::path::Path) -> bool {
+    let v: J = serde_json::from_slice(&std::fs::read(path).expect("replay file")).expect("json");
+    let r = &v["replay"];
+    let (Some(cfg), Some(entry)) = (CfgD::from_json(&r["config"]), EntryD::from_json(&r["entry"])) else {
+        println!("replay file has no (config, entry) case: {}", r);
+        return false;
+    };
+    let pristine = cfg.build();
+    let mut out = Vec::new();
+    let outcome = run_fresh(&pristine, cfg.mult, &entry, &mut out);
+    println!("config : {}", cfg.to_json());
+    println!("entry  : {}", entry.to_json());
+    println!("outcome: {outcome:?}");
+    println!("output : {}", String::from_utf8_lossy(&out));
+    let defects = reference::defects(&cfg, &entry);
+    println!("defects per statement: {defects:?}; dimension-key collision: {:?}", reference::dimension_key_collision(&cfg, &entry));
+    let mut ok = true;
+    match &outcome {
+        Outcome::Ok => match reference::parse_output(&out) {
+            Ok(recs) => {
+                println!("strict parse: ok, {} record(s), duplicate member: {:?}", recs.len(), recs.iter().find_map(|r| r.duplicate_member.clone()));
+                if defects.is_empty() && reference::dimension_key_collision(&cfg, &entry).is_none() {
+                    match reference::compare(&cfg, &reference::expected_records(&cfg, &entry), &recs) {
+                        Ok(()) => println!("reference interpretation: records match"),
+                        Err(m) => {
+                            println!("reference interpretation: MISMATCH {m}");
+                            ok = false;
+                        }
+                    }
+                }
+                if recs.iter().any(|r| r.duplicate_member.is_some()) {
+                    ok = false;
+                }
+                if !defects.is_empty() && cfg.validating() == Some(true) {
+                    println!("a malformed entry was ACCEPTED with validations enabled");
+                    ok = false;
+                }
+            }
+            Err(m) => {
+                println!("strict parse: FAILED {m}");
+                ok = false;
+            }
+        },
+        Outcome::Validation(_) => {
+            if !out.is_empty() {
+                println!("bytes written although a validation error was reported");
+                ok = false;
+            }
+            if defects.is_empty() {
+                println!("an entry with none of the listed defects was REJECTED");
+                ok = false;
+            }
+        }
+        Outcome::Io(_) => ok = false,
+    }
+    ok
+}
